@@ -11,6 +11,7 @@ import (
 	"strconv"
 	"strings"
 
+	"github.com/alicebob/sqlittle"
 	sdb "github.com/alicebob/sqlittle/db"
 	h "verifharness/hcommon"
 )
@@ -20,6 +21,88 @@ var (
 	pager *h.MemPager
 	db    *sdb.Database
 )
+
+func cols(s string) []string {
+	if s == "-" {
+		return nil
+	}
+	return strings.Split(s, ",")
+}
+
+func hkey(s string) sqlittle.Key {
+	k := sqlittle.Key{}
+	if s == "-" {
+		return k
+	}
+	for _, p := range strings.Split(s, ",") {
+		k = append(k, h.ReadValue(p))
+	}
+	return k
+}
+
+// high level API over the same pager. Output: row lines, then end ok|stop|err KIND,
+// then "locks <events since the call started>"
+func highcmd(w []string) bool {
+	if db == nil {
+		return false
+	}
+	hd := sqlittle.VerifWrap(db)
+	n, limit, stopped := 0, 0, false
+	rowcb := func(r sqlittle.Row) {
+		fmt.Fprintf(out, "row %s\n", h.ShowRecord([]interface{}(r)))
+		n++
+	}
+	finish := func(err error) {
+		if err != nil {
+			fmt.Fprintf(out, "end err %s\n", h.ErrKind(err))
+		} else if stopped {
+			fmt.Fprintln(out, "end stop")
+		} else {
+			fmt.Fprintln(out, "end ok")
+		}
+		fmt.Fprintf(out, "locks %s locked=%v\n", strings.Join(pager.Events, ","), pager.Locked)
+	}
+	pager.Events = nil
+	switch {
+	case w[0] == "select" && len(w) == 4:
+		limit = atoi(w[2])
+		guard("end err ", func() {
+			err := hd.SelectDone(w[1], func(r sqlittle.Row) bool {
+				rowcb(r)
+				if limit > 0 && n >= limit {
+					stopped = true
+				}
+				return stopped
+			}, cols(w[3])...)
+			finish(err)
+		})
+	case w[0] == "selectrowid" && len(w) == 4:
+		guard("end err ", func() {
+			r, err := hd.SelectRowid(w[1], atoi64(w[2]), cols(w[3])...)
+			if err == nil && r != nil {
+				rowcb(r)
+			}
+			finish(err)
+		})
+	case w[0] == "iselect" && len(w) == 4:
+		guard("end err ", func() { finish(hd.IndexedSelect(w[1], w[2], rowcb, cols(w[3])...)) })
+	case w[0] == "iselecteq" && len(w) == 5:
+		guard("end err ", func() { finish(hd.IndexedSelectEq(w[1], w[2], hkey(w[3]), rowcb, cols(w[4])...)) })
+	case w[0] == "pkselect" && len(w) == 4:
+		guard("end err ", func() { finish(hd.PKSelect(w[1], hkey(w[2]), rowcb, cols(w[3])...)) })
+	case w[0] == "columns" && len(w) == 2:
+		guard("end err ", func() {
+			cs, err := hd.Columns(w[1])
+			if err == nil {
+				fmt.Fprintf(out, "cols %s\n", strings.Join(cs, ","))
+			}
+			finish(err)
+		})
+	default:
+		return false
+	}
+	return true
+}
 
 func atoi(s string) int   { n, _ := strconv.Atoi(s); return n }
 func atoi64(s string) int64 { n, _ := strconv.ParseInt(s, 10, 64); return n }
@@ -257,9 +340,26 @@ func main() {
 				}
 				pager.FailPages = fp
 			}
+		case line == "reads":
+			if pager != nil {
+				fmt.Fprintf(out, "reads %d\n", pager.Reads)
+			}
+		case line == "fresh" || strings.HasPrefix(line, "failat "):
+			if pager != nil {
+				pager = &h.MemPager{Data: pager.Data, FailPages: map[int]bool{}}
+				db = nil
+				if d, err := sdb.VerifOpen(pager, ""); err == nil {
+					db = d
+				}
+				pager.Reads = 0
+				if f := strings.Fields(line); len(f) >= 2 {
+					pager.FailAt = atoi(f[1])
+					pager.Short = len(f) >= 3 && f[2] == "short"
+				}
+			}
 		default:
 			w := strings.Fields(line)
-			if !pure(w) {
+			if !pure(w) && !highcmd(w) {
 				dbcmd(w)
 			}
 		}
